@@ -398,7 +398,7 @@ func childMain() {
 			select {
 			case mo := <-done:
 				res[mode] = mo
-			case <-time.After(120 * time.Second):
+			case <-time.After(300 * time.Second):
 				emit(childLine{N: m.N, Hang: mode})
 				os.Exit(4)
 			}
